@@ -918,6 +918,21 @@ class PathSum(object):
                     return x[1] == y[1]
             if is_const(y) and y[1] is None and x[0] in NOT_NONE:
                 return False
+            if a[1] == 'is':
+                for snt, other in ((x, y), (y, x)):
+                    if snt[0] == 'glob' and self.is_sentinel(snt) and \
+                            struct(other) != struct(snt) and not any(
+                                t[0] == 'glob' and t == snt
+                                for t in subterms(other)):
+                        # a private marker object that never leaves the
+                        # locals of its module: only a value that flowed
+                        # from it can be it
+                        if is_const(other) or other[0] in (
+                                'attr', 'op', 'sym', 'obj', 'tuple', 'list',
+                                'dict', 'set', 'fn', 'cls', 'nt') or (
+                                    other[0] == 'call'
+                                    and other[1][0] != 'fn'):
+                            return False
             if struct(x) == struct(y) and x[0] not in ('call',):
                 return True
             # a value the path already knows to be (not) None
@@ -1958,6 +1973,71 @@ class PathSum(object):
                     return d.value
             return None
         return None
+
+    def is_sentinel(self, g):
+        """module-level `_NAME = object()` that is only ever compared by
+        identity, chosen by a conditional expression, returned, bound to a
+        local or given as the default of a .get() / getattr(): it is never
+        stored in a container or attribute nor passed to a function, so a
+        value read from data cannot be it."""
+        cache = self.__dict__.setdefault('_sentinels', {})
+        if g not in cache:
+            cache[g] = False
+            m = self.db.modules.get(g[1])
+            name = g[2]
+            defs = [n for n in (m.tree.body if m else [])
+                    if isinstance(n, ast.Assign) and any(
+                        isinstance(t, ast.Name) and t.id == name
+                        for t in n.targets)]
+            okk = len(defs) == 1 and isinstance(defs[0].value, ast.Call) \
+                and isinstance(defs[0].value.func, ast.Name) and \
+                defs[0].value.func.id == 'object' and \
+                not defs[0].value.args and name.startswith('_')
+            if okk:
+                par = {}
+                for n in ast.walk(m.tree):
+                    for c in ast.iter_child_nodes(n):
+                        par[id(c)] = n
+                for n in ast.walk(m.tree):
+                    if not (isinstance(n, ast.Name) and n.id == name
+                            and isinstance(n.ctx, ast.Load)):
+                        continue
+                    p = par.get(id(n))
+                    fine = False
+                    if isinstance(p, ast.Compare) and all(isinstance(
+                            o, (ast.Is, ast.IsNot)) for o in p.ops):
+                        fine = True
+                    elif isinstance(p, ast.IfExp) and n is not p.test:
+                        fine = True
+                    elif isinstance(p, ast.Return):
+                        fine = True
+                    elif isinstance(p, ast.Assign) and all(
+                            isinstance(t, ast.Name) for t in p.targets):
+                        fine = True
+                    elif isinstance(p, ast.Call) and isinstance(
+                            p.func, ast.Attribute) and p.func.attr == 'get' \
+                            and len(p.args) == 2 and p.args[1] is n:
+                        fine = True
+                    elif isinstance(p, ast.Call) and isinstance(
+                            p.func, ast.Name) and p.func.id == 'getattr' \
+                            and len(p.args) == 3 and p.args[2] is n:
+                        fine = True
+                    if not fine:
+                        okk = False
+                        break
+                # not imported elsewhere
+                for m2 in self.db.modules.values():
+                    if m2 is m:
+                        continue
+                    for n in ast.walk(m2.tree):
+                        if isinstance(n, ast.ImportFrom) and any(
+                                al.name == name for al in n.names):
+                            okk = False
+                        elif isinstance(n, ast.Attribute) and \
+                                n.attr == name:
+                            okk = False
+            cache[g] = okk
+        return cache[g]
 
     def forget_literal(self, lit, st):
         new = ('call', ('builtin', '<mutated>'), (lit,), (), next(self.uid))
